@@ -45,9 +45,11 @@ def handle (j : Json) : Except String Json := do
     let d ← getNat j "root"
     let tb ← parseTables j
     let v := mkVal tb
-    let part := XsVerif.Lazy.chunkErrs v (fun _ c => lookup tb.static c) k [] (some d) t
+    -- the declaration of a selected element: found by the schema path, else created for its xsi:type (schemas.py:1363-1366)
+    let look : Tree → Option Nat := fun c => lazyPick (lookup tb.static) (lookup tb.created) none c
+    let part := XsVerif.Lazy.chunkErrs v (fun _ c => look c) k [] (some d) t
     let deep := (eagerT v [] d t).filter (fun e => !decide (e.1.length < k))
-    let loc := (chunkPairs v k [] (some d) t).all fun p => lookup tb.static p.2.2 == p.2.1
+    let loc := (chunkPairs v k [] (some d) t).all fun p => look p.2.2 == p.2.1
     return Json.mkObj [("part", natArr (part.map Prod.snd)), ("deep", natArr (deep.map Prod.snd)),
                        ("cut", natArr ((cutT v (if k == 0 then 1 else k) [] d t).map Prod.snd)),
                        ("local", loc)]
